@@ -32,6 +32,22 @@ fn skey(t: RegLan) -> String {
     }
 }
 
+/// among the terms a client actually holds (results of API calls): equal iff the same object
+fn pool_identity(terms: &[RegLan], rep: &mut Report, kind: &str, case: &str, seed: u64) -> bool {
+    for i in 0..terms.len() {
+        for j in (i + 1)..terms.len() {
+            rep.inc("identity_pairs_checked");
+            let (a, b) = (terms[i], terms[j]);
+            let same = std::ptr::eq(a, b);
+            if (a == b) != same || (same && hash_of(a) != hash_of(b)) {
+                rep.violation("identity", "identity:results", format!("results of steps {} and {} compare equal = {} but same object = {} ({} / {})", i, j, a == b, same, term_text(a), term_text(b)), kind, case, seed);
+                return false;
+            }
+        }
+    }
+    true
+}
+
 /// walk every term the manager holds
 fn store_walk(m: &mut ReManager, ctx: &mut ReCtx, rep: &mut Report, rng: &mut Rng, kind: &str, case: &str, seed: u64, thorough: bool) -> bool {
     let terms = m.verif_terms();
@@ -157,6 +173,9 @@ fn run_history(m: &mut ReManager, prog: &Program, noise_n: usize, rng: &mut Rng,
             }
         }
     }
+    if !pool_identity(&terms, rep, KIND_MGR, &case, seed) {
+        return None;
+    }
     // language under this history == language of the construction
     let mut ctx = ReCtx::new(&prog.all_points(), c.budget);
     for k in 0..terms.len() {
@@ -209,6 +228,19 @@ fn run_wrapped_thread(prog: &Program, noise_n: usize, seed: u64, thorough: bool)
                         }
                     }
                     Err(_) => break,
+                }
+            }
+            if !pool_identity(&run.terms, &mut rep, "reprog-wrap", &case, seed) {
+                return rep;
+            }
+            // complement through the wrappers is an involution on the objects handed out
+            for (k, &t) in run.terms.iter().enumerate() {
+                if let Ok(c) = guard(|| w::re_comp(t)) {
+                    let cc = w::re_comp(c);
+                    if std::ptr::eq(c, t) || !std::ptr::eq(cc, t) {
+                        rep.violation("complement", "complement:wrapper-involution", format!("re_comp(re_comp(x)) is not x (or re_comp(x) is x) for the result of step {}: {}", k, term_text(t)), "reprog-wrap", &case, seed);
+                        return rep;
+                    }
                 }
             }
             let mut ctx = ReCtx::new(&prog.all_points(), c.budget);
